@@ -2,6 +2,7 @@ import CookModel.Num.Fraction
 import CookModel.Lemmas.Fraction
 import CookModel.Lemmas.FractionMore
 import CookModel.Lemmas.FractionDisplay
+import CookModel.Lemmas.DisplayText
 /-
   C12  Fraction approximation never misstates a value.
 
@@ -184,5 +185,268 @@ example : readFraction "2 1/".toList = none := by decide +kernel
 example : newApprox ratTable (7/2 : Rat) (5/100) 4 2 = none := by decide +kernel
 /-- the hypothesis of `C12_declines_nonfinite` at the exact instance -/
 example : Arith.le (-1 : Rat) (Arith.ofNat 0) = true := by decide +kernel
+
+-- ===== w4display =====
+/-! ## the printing code (`Display` for `Number`, `Value`, `Quantity`; `display_name`) — model
+    `Num/Display.lean`, tied to `format!("{}")` / `format!("{:#}")` by the ops `disp …`.  All statements
+    about printed decimals are at the exact instance, where `Display for f64` is the exact decimal
+    expansion (`ratText`); the f64 printer of the model is compared with the real one on every run. -/
+
+/-- The `Regular` branch of `Display for Number` (both the plain and the alternate form): the printed
+    characters, read as a signed decimal numeral (`readDecimal`: optional sign, digits, optionally a
+    point and digits — every other string is refused), denote exactly `round(v · 1000) / 1000`
+    (rounding half away from zero), for every rational `v`. -/
+theorem C12_display_regular_denotes (alt : Bool) (v : Rat) :
+    readDecimal ((Number.regular v : Number Rat).display alt)
+      = some (((ratRound (v * 1000) : Int) : Rat) / 1000) :=
+  dsp_read_round false v
+
+/-- …hence what is printed for a plain number is within 0.0005 of the number. -/
+theorem C12_display_regular_close (alt : Bool) (v : Rat) :
+    ∃ x, readDecimal ((Number.regular v : Number Rat).display alt) = some x ∧
+      Rat.abs (x - v) ≤ 1 / 2000 :=
+  ⟨_, dsp_read_round false v, dsp_abs_close _ _ (dsp_round_close v).1 (dsp_round_close v).2⟩
+
+/-- A plain number with at most three decimals (`k/1000`) is printed exactly. -/
+theorem C12_display_regular_exact (alt : Bool) (k : Int) :
+    readDecimal ((Number.regular ((k : Rat) / 1000) : Number Rat).display alt) = some ((k : Rat) / 1000) := by
+  rw [C12_display_regular_denotes]
+  have h : (k : Rat) / 1000 * 1000 = (k : Rat) := by grind
+  have hr : ratRound (k : Rat) = k := by
+    unfold ratRound
+    split
+    · have : (k : Rat) + 1 / 2 = ((k : Int) : Rat) + 1 / 2 := rfl
+      have h1 : ((k : Rat) + 1 / 2).floor = k := by
+        have hle : k ≤ ((k : Rat) + 1 / 2).floor := Rat.le_floor_iff.2 (by grind)
+        have hlt : ((k : Rat) + 1 / 2).floor < k + 1 := Rat.floor_lt_iff.2 (by rw [Rat.intCast_add]; grind)
+        omega
+      exact h1
+    · have h1 : (-(k : Rat) + 1 / 2).floor = -k := by
+        have hle : -k ≤ (-(k : Rat) + 1 / 2).floor := Rat.le_floor_iff.2 (by rw [Rat.intCast_neg]; grind)
+        have hlt : (-(k : Rat) + 1 / 2).floor < -k + 1 :=
+          Rat.floor_lt_iff.2 (by rw [Rat.intCast_add, Rat.intCast_neg]; grind)
+        omega
+      omega
+  rw [h, hr]
+
+/-- The `Fraction` branch, all print shapes (for every fraction, not only results of `new_approx`).
+    A fraction whose `value()` is zero prints `0` (nothing else, in either form).  Otherwise the plain
+    form is: `0` when whole part and numerator are both 0; `n/d` when the whole part is 0; the whole
+    part alone when the numerator is 0; `w n/d` in the remaining case (decimal numerals, one space,
+    one slash). -/
+theorem C12_display_fraction_shapes (w n d : Nat) (e : Rat) :
+    ((Number.fraction w n d e : Number Rat).value = 0 →
+        ∀ alt, (Number.fraction w n d e : Number Rat).display alt = ['0']) ∧
+    ((Number.fraction w n d e : Number Rat).value ≠ 0 →
+        (Number.fraction w n d e : Number Rat).display false =
+          if w = 0 ∧ n = 0 then ['0']
+          else if w = 0 then Nat.toDigits 10 n ++ '/' :: Nat.toDigits 10 d
+          else if n = 0 then Nat.toDigits 10 w
+          else Nat.toDigits 10 w ++ ' ' :: (Nat.toDigits 10 n ++ '/' :: Nat.toDigits 10 d)) := by
+  constructor
+  · intro h alt
+    rw [dsp_display_fraction, if_pos h]
+  · intro h
+    rw [dsp_display_fraction, if_neg h, frd_render_toList]
+    simp only [errSuffix, Bool.false_and, Bool.false_eq_true, if_false, List.append_nil, fracForm]
+    repeat' split
+    all_goals first | rfl | simp_all
+
+/-- The print shapes for EVERY arithmetic instance (so also for the f64 one the driver runs, NaN and
+    infinite errors included): only the test `value() == 0.0` looks at the numbers.  When it holds the
+    text is that of `0.0` in both forms; when it fails the plain form is `0` / `n/d` / `w` / `w n/d` as
+    above and the alternate form is the plain form followed by the error suffix (`errSuffix`: empty
+    unless `err.abs() > 0.001`). -/
+theorem C12_display_fraction_shapes_any_arith {α : Type} [Arith α] [FloatText α] (w n d : Nat) (e : α) :
+    (Arith.eq (Number.fraction w n d e : Number α).value (Arith.ofNat 0) = true →
+        ∀ alt, (Number.fraction w n d e : Number α).display alt = FloatText.text false (Arith.ofNat 0 : α)) ∧
+    (Arith.eq (Number.fraction w n d e : Number α).value (Arith.ofNat 0) = false →
+        (Number.fraction w n d e : Number α).display false =
+          (if w = 0 ∧ n = 0 then ['0']
+           else if w = 0 then Nat.toDigits 10 n ++ '/' :: Nat.toDigits 10 d
+           else if n = 0 then Nat.toDigits 10 w
+           else Nat.toDigits 10 w ++ ' ' :: (Nat.toDigits 10 n ++ '/' :: Nat.toDigits 10 d)) ∧
+        (Number.fraction w n d e : Number α).display true
+          = (Number.fraction w n d e : Number α).display false ++ errSuffix true e) := by
+  constructor
+  · intro h alt
+    simp only [Number.display, h, if_true]
+  · intro h
+    simp only [Number.display, h, Bool.false_eq_true, if_false, frd_render_toList, errSuffix,
+      Bool.false_and, List.append_nil, fracForm]
+    repeat' split
+    all_goals first | rfl | simp_all
+
+/-- The alternate form `{:#}` of a fraction is the plain form followed by a suffix, for every fraction:
+    * no suffix when the value is zero or the recorded error is at most 0.001 in absolute value;
+    * otherwise the suffix is ` (`, a signed decimal numeral, `)`, and that numeral denotes exactly the
+      recorded error rounded to three decimals, which is within 0.0005 of the recorded error.
+    (The numeral always carries its sign: it is printed with `{:+}`.) -/
+theorem C12_display_alt_suffix (w n d : Nat) (e : Rat) :
+    ∃ s, (Number.fraction w n d e : Number Rat).display true
+          = (Number.fraction w n d e : Number Rat).display false ++ s ∧
+      (((Number.fraction w n d e : Number Rat).value = 0 ∨ Rat.abs e ≤ 1 / 1000) → s = []) ∧
+      ((Number.fraction w n d e : Number Rat).value ≠ 0 → 1 / 1000 < Rat.abs e →
+        ∃ t, s = ' ' :: '(' :: (t ++ [')']) ∧ (t.head? = some '+' ∨ t.head? = some '-') ∧
+          readDecimal t = some (((ratRound (e * 1000) : Int) : Rat) / 1000) ∧
+          Rat.abs (((ratRound (e * 1000) : Int) : Rat) / 1000 - e) ≤ 1 / 2000) := by
+  by_cases hv : (Number.fraction w n d e : Number Rat).value = 0
+  · refine ⟨[], ?_, fun _ => rfl, fun h => absurd hv h⟩
+    simp only [dsp_display_fraction, if_pos hv, List.append_nil]
+  · by_cases he : 1 / 1000 < Rat.abs e
+    · refine ⟨' ' :: '(' :: (FloatText.text true (roundFloat e) ++ [')']), ?_, ?_, ?_⟩
+      · simp only [dsp_display_fraction, if_neg hv, dsp_errSuffix_rat]
+        simp [he]
+      · intro h
+        rcases h with h | h
+        · exact absurd h hv
+        · exact absurd he (Rat.not_lt.2 h)
+      · intro _ _
+        refine ⟨_, rfl, ?_, dsp_read_round true e,
+          dsp_abs_close _ _ (dsp_round_close e).1 (dsp_round_close e).2⟩
+        obtain ⟨j, hj⟩ := dsp_places_of_dvd _ (dsp_den_thousandth (ratRound (e * 1000)))
+        show (ratText true (roundFloat e)).head? = _ ∨ (ratText true (roundFloat e)).head? = _
+        rw [dsp_roundFloat_rat]
+        unfold ratText
+        rw [hj]
+        simp only [signText]
+        split <;> simp
+    · refine ⟨[], ?_, fun _ => rfl, fun _ h => absurd h he⟩
+      simp only [dsp_display_fraction, if_neg hv, dsp_errSuffix_rat]
+      simp [he]
+
+/-- A shown suffix never reads `(+0)`: when the recorded error exceeds 0.001 in absolute value its
+    rounding to three decimals is not zero and has the sign of the error. -/
+theorem C12_display_alt_suffix_nonzero (e : Rat) (h : 1 / 1000 < Rat.abs e) :
+    (0 < e → 0 < ratRound (e * 1000)) ∧ (e < 0 → ratRound (e * 1000) < 0) := by
+  have habs : Rat.abs e = if 0 ≤ e then e else -e := rfl
+  constructor
+  · intro hp
+    have h0 : 0 ≤ e * 1000 := by grind
+    rw [ratRound_nonneg h0]
+    have : (1 : Int) ≤ (e * 1000 + 1 / 2).floor := Rat.le_floor_iff.2 (by rw [habs] at h; split at h <;> grind)
+    omega
+  · intro hn
+    have h0 : ¬ (0 ≤ e * 1000) := by grind
+    unfold ratRound
+    rw [if_neg h0]
+    have : (1 : Int) ≤ (-(e * 1000) + 1 / 2).floor := Rat.le_floor_iff.2 (by rw [habs] at h; split at h <;> grind)
+    omega
+
+/-- Printed fraction + recorded error = value, in the alternate form, for every result of `new_approx`:
+    the plain part of the printed text reads (as `w`, `n/d` or `w n/d`) as a number `x` with
+    `x + err = v` exactly, and the text is that part alone when `|err| ≤ 0.001`, or that part followed
+    by ` (±r)` where the numeral reads as `r = round(err · 1000)/1000`, `|r − err| ≤ 0.0005`.  So a
+    reader of the alternate form who adds the suffix is off by at most 0.0005, one who is shown no
+    suffix by at most 0.001. -/
+theorem C12_display_alt_exact (t : List FracEntry) (v acc : Rat) (maxDen maxWhole w n d : Nat) (e : Rat)
+    (h : newApprox t v acc maxDen maxWhole = some (.fraction w n d e)) :
+    ∃ x s, readFraction ((Number.fraction w n d e : Number Rat).display false) = some x ∧ x + e = v ∧
+      (Number.fraction w n d e : Number Rat).display true
+        = (Number.fraction w n d e : Number Rat).display false ++ s ∧
+      ((s = [] ∧ Rat.abs e ≤ 1 / 1000) ∨
+       (∃ tx r, s = ' ' :: '(' :: (tx ++ [')']) ∧ readDecimal tx = some r ∧ Rat.abs (r - e) ≤ 1 / 2000)) := by
+  have hne := C12_display_branch t v acc maxDen maxWhole _ h
+  obtain ⟨s, hs, h0, h1⟩ := C12_display_alt_suffix w n d e
+  have hplain : (Number.fraction w n d e : Number Rat).display false
+      = (fracForm (decide ((Number.fraction w n d e : Number Rat).value = 0)) w n d).render.toList := by
+    rw [dsp_display_fraction, if_neg hne]
+    simp [hne, errSuffix]
+  refine ⟨_, s, ?_, C12_display_exact t v acc maxDen maxWhole w n d e h, hs, ?_⟩
+  · rw [hplain]; exact frd_read_render _
+  · by_cases he : 1 / 1000 < Rat.abs e
+    · obtain ⟨tx, htx, _, hr, hc⟩ := h1 hne he
+      exact Or.inr ⟨tx, _, htx, hr, hc⟩
+    · have hle : Rat.abs e ≤ 1 / 1000 := Rat.not_lt.1 he
+      exact Or.inl ⟨h0 (Or.inr hle), hle⟩
+
+/-- The model's f64 printer (`f64Text`, the one compared with Rust's `Display for f64`), on every
+    finite non-zero f64 `x` (`b` = its bit pattern): the text is the sign followed by a plain decimal
+    numeral — digits, optionally a point and digits, no exponent — which denotes exactly `c · 10^(-s)`
+    for the digits `(c, s)` the search returned, and that decimal, read by the correctly rounded
+    decimal→f64 conversion of Basic/Decimal.lean, is `|x|` again (the printed text ROUND-TRIPS).
+    PARTIAL: the last claim has the alternative "the 17-digit search was exhausted" (`s` is then digit
+    position 18); that 17 significant digits always suffice, that the result is the SHORTEST such
+    numeral and the closest among the shortest, and that `f64Num b / f64Den b` is the value of `x`
+    (it is by construction: mantissa · 2^exponent) are not proved — the correspondence run compares the
+    texts with `format!("{}")` / `format!("{:+}")` instead. -/
+theorem C12_display_f64_roundtrip_partial (plus : Bool) (x : Float)
+    (hfin : (x.toBits.toNat / 2 ^ 52) % 2048 ≠ 2047)
+    (hnz : ¬ ((x.toBits.toNat / 2 ^ 52) % 2048 = 0 ∧ x.toBits.toNat % 2 ^ 52 = 0)) :
+    ∃ (c : Nat) (s : Int),
+      f64Text plus x = signText (decide (x.toBits.toNat / 2 ^ 63 = 1)) plus ++ decimalText c s ∧
+      readUDecimal (decimalText c s) =
+        some (if s ≤ 0 then ((c * 10 ^ (-s).toNat : Nat) : Rat) else (c : Rat) / ((10 ^ s.toNat : Nat) : Rat)) ∧
+      (bitsOfDecimal c s = UInt64.ofNat (x.toBits.toNat % 2 ^ 63) ∨
+       s = 18 - decExponent (f64Num x.toBits.toNat) (f64Den x.toBits.toNat)) := by
+  refine ⟨_, _, dsp_f64Text_finite plus x hfin hnz, dsp_read_decimalText _ _, ?_⟩
+  exact dsp_shortestFrom_roundtrip _ _ _ _ 17 1
+
+/-- `Display for Value` (every arithmetic instance): a number prints by the number rule with the
+    caller's flag; a range prints `a-b` with BOTH ends by the plain number rule — the alternate flag is
+    not passed on to the ends of a range (`write!(f, "{start}-{end}")`), so a range never shows error
+    suffixes; a text prints as it is. -/
+theorem C12_display_value {α : Type} [Arith α] [FloatText α] (alt : Bool) :
+    (∀ n : Number α, (Value.number n).display alt = n.display alt) ∧
+    (∀ a b : Number α, (Value.range a b).display alt = a.display false ++ '-' :: b.display false) ∧
+    (∀ t : List Char, (Value.text t : Value α).display alt = t) :=
+  ⟨fun _ => rfl, fun _ _ => rfl, fun _ => rfl⟩
+
+/-- `Display for Quantity` (every arithmetic instance): the value by the value rule (flag passed on),
+    then one space and the unit text if there is a unit, nothing otherwise. -/
+theorem C12_display_quantity {α : Type} [Arith α] [FloatText α] (alt : Bool) (v : Value α) :
+    (∀ u : Str, SQuantity.display alt (⟨v, some u⟩ : SQuantity α) = v.display alt ++ ' ' :: u) ∧
+    SQuantity.display alt (⟨v, none⟩ : SQuantity α) = v.display alt :=
+  ⟨fun _ => rfl, by simp [SQuantity.display, unitSuffix]⟩
+
+/-- `display_name`: the alias if there is one (ingredients and cookware); without an alias a cookware
+    item and an ingredient that is not a recipe reference show their name, a recipe reference
+    (`RECIPE` modifier) the file stem of its path when `Path::file_stem` gives one. -/
+theorem C12_display_name {V : Type} :
+    (∀ (i : Ingredient V) (a : Str), i.alias = some a → i.displayName = a) ∧
+    (∀ i : Ingredient V, i.alias = none → i.modifiers.contains Modifiers.RECIPE = false →
+        i.displayName = i.name) ∧
+    (∀ i : Ingredient V, i.alias = none → i.modifiers.contains Modifiers.RECIPE = true →
+        i.displayName = (pathFileStem i.name).getD i.name) ∧
+    (∀ (c : Cookware V) (a : Str), c.alias = some a → c.displayName = a) ∧
+    (∀ c : Cookware V, c.alias = none → c.displayName = c.name) := by
+  refine ⟨?_, ?_, ?_, ?_, ?_⟩
+  · intro i a h; simp [Ingredient.displayName, h]
+  · intro i h hm; simp [Ingredient.displayName, h, hm]
+  · intro i h hm; simp [Ingredient.displayName, h, hm]
+  · intro c a h; simp [Cookware.displayName, h]
+  · intro c h; simp [Cookware.displayName, h]
+
+/-! Non-vacuity of the printing theorems: concrete prints at the exact instance. -/
+/-- the documentation example `14.57893` prints `14.579`, and reads back as 14579/1000 -/
+example : (Number.regular (1457893 / 100000 : Rat)).display false = "14.579".toList := by decide +kernel
+example : readDecimal "14.579".toList = some (14579 / 1000) := by decide +kernel
+example : (Number.regular (-5 / 10000 : Rat)).display false = "-0.001".toList := by decide +kernel
+example : (Number.regular (14 : Rat)).display true = "14".toList := by decide +kernel
+/-- the reader refuses what is not a decimal numeral -/
+example : readDecimal "1.".toList = none := by decide +kernel
+example : readDecimal "1.5e3".toList = none := by decide +kernel
+/-- alternate form with a shown and with a hidden error (a `new_approx` result, see the example of
+    `C12_display_exact` above) -/
+example : (Number.fraction 2 1 3 (1 / 300 : Rat)).display true = "2 1/3 (+0.003)".toList := by decide +kernel
+example : (Number.fraction 2 1 3 (-1 / 300 : Rat)).display true = "2 1/3 (-0.003)".toList := by decide +kernel
+example : (Number.fraction 0 1 4 (1 / 10000 : Rat)).display true = "1/4".toList := by decide +kernel
+example : (Number.fraction 3 0 1 (1 / 100 : Rat)).display false = "3".toList := by decide +kernel
+/-- the hypothesis of `C12_display_alt_suffix_nonzero` -/
+example : (1 : Rat) / 1000 < Rat.abs (1 / 300) := by decide +kernel
+/-- a fraction whose value is zero -/
+example : (Number.fraction 1 0 1 (-1 : Rat)).display true = "0".toList := by decide +kernel
+/-- the f64 instance: hypotheses of `C12_display_fraction_shapes_any_arith` on concrete numbers -/
+example : Arith.eq (Number.fraction 2 1 3 (0.003 : Float)).value (Arith.ofNat 0) = false := by decide +kernel
+/-- the hypotheses of `C12_display_f64_roundtrip_partial` (finite, non-zero) on 0.1, whose text is `0.1` -/
+example : ((0.1 : Float).toBits.toNat / 2 ^ 52) % 2048 ≠ 2047 ∧
+    ¬ (((0.1 : Float).toBits.toNat / 2 ^ 52) % 2048 = 0 ∧ (0.1 : Float).toBits.toNat % 2 ^ 52 = 0) := by decide +kernel
+example : f64Text false (0.1 : Float) = "0.1".toList := by decide +kernel
+/-- a range drops the alternate flag -/
+example : (Value.range (.fraction 2 1 3 (1 / 300 : Rat)) (.regular (7 / 2))).display true
+    = "2 1/3-3.5".toList := by decide +kernel
+example : SQuantity.display true (⟨.number (.fraction 2 1 3 (1 / 300 : Rat)), some "cup".toList⟩ : SQuantity Rat)
+    = "2 1/3 (+0.003) cup".toList := by decide +kernel
+-- ===== end w4display =====
 
 end Cook
